@@ -21,6 +21,7 @@ import (
 	"io"
 	"math/big"
 	"net/http"
+	"strings"
 	"sync"
 	"time"
 
@@ -233,6 +234,7 @@ var tsaBehaviours = []string{
 	"garbage", "empty-body", "truncated", "http-500", "http-404", "wrong-content-type", "transport-error", "oversized",
 	"bad-cms-signature", "signed-by-other-key", "bad-message-digest", "bad-cert-hash", "no-signing-cert-attr",
 	"econtent-id-data", "tst-version-2", "signing-time-attr-outside-validity", "not-signed-data",
+	"gentime-inside-leaf-validity", "gentime-inside-leaf-validity-with-signing-time-attr", "gentime-a-year-ago", "gentime-in-a-year",
 }
 
 // otherData: what a lying authority stamps instead
@@ -306,6 +308,24 @@ func (a *tsaAuthority) respond(tsReq *tspclient.Request, payload []byte) (status
 		o.eContentType = oidData
 	case "tst-version-2":
 		o.tstVersion = 2
+	case "gentime-inside-leaf-validity", "gentime-inside-leaf-validity-with-signing-time-attr":
+		// an authority whose certificate is outside its validity now dates the token into the validity period
+		leaf := a.chain[0]
+		now := time.Now()
+		switch {
+		case now.After(leaf.NotAfter):
+			o.genTime = leaf.NotAfter.Add(-30 * time.Minute)
+		case now.Before(leaf.NotBefore):
+			o.genTime = leaf.NotBefore.Add(30 * time.Minute)
+		}
+		if strings.HasSuffix(a.behaviour, "attr") {
+			t := o.genTime
+			o.signingTime = &t
+		}
+	case "gentime-a-year-ago":
+		o.genTime = time.Now().AddDate(-1, 0, 0)
+	case "gentime-in-a-year":
+		o.genTime = time.Now().AddDate(1, 0, 0)
 	case "signing-time-attr-outside-validity":
 		t := a.chain[0].NotAfter.Add(48 * time.Hour)
 		o.signingTime = &t
@@ -443,7 +463,7 @@ var (
 
 var tsaChainMuts = []string{"", "leaf-eku-noncritical", "leaf-eku-plus-codesigning", "leaf-ku-keyencipherment", "leaf-no-ku", "leaf-is-ca",
 	"leaf-rsa1024", "leaf-ec224", "leaf-rsa2048", "ca-no-ku", "ca-ku-without-certsign", "leaf-expired", "leaf-not-yet-valid", "leaf-eku-any",
-	"leaf-ku-contentcommitment", "inter-pathlen-0-above-inter"}
+	"leaf-ku-contentcommitment", "inter-pathlen-0-above-inter", "root-expired", "root-not-yet-valid", "all-expired"}
 
 // getTSA returns a TSA chain of n certificates (leaf first) with the named defect.
 func getTSA(n int, mut string) *tsaIdentity {
@@ -495,6 +515,14 @@ func getTSA(n int, mut string) *tsaIdentity {
 		leaf.NotAfter = baseTime().Add(-time.Hour)
 	case "leaf-not-yet-valid":
 		leaf.NotBefore = baseTime().Add(time.Hour)
+	case "root-expired":
+		specs[n-1].NotAfter = baseTime().Add(-time.Hour)
+	case "root-not-yet-valid":
+		specs[n-1].NotBefore = baseTime().Add(time.Hour)
+	case "all-expired":
+		for _, sp := range specs {
+			sp.NotAfter = baseTime().Add(-time.Hour)
+		}
 	case "inter-pathlen-0-above-inter":
 		if n > 3 {
 			specs[2].MaxPathLen, specs[2].MaxPathLenZero = 0, true
